@@ -4,11 +4,11 @@ CONSTANTS
   MaxPK = 2
   MaxKO = 2
   FixPO = 0
-  MaxPos = 6
-  Extra = 2
+  MaxPos = 5
+  Extra = 1
   MaxKw = 2
   NSim = 0
-  KindMode = "pat"
+  KindMode = "uni"
   Dump = TRUE
 INVARIANT RefIsDeclarative
 INVARIANT ImplAgrees
